@@ -448,5 +448,28 @@ mut("17-unchecked-migrate-assertion", "C17", "tryToProcessErr/assert", ("mtproto
 mut("08N-writer-single-write", "C08", None, ("internal/mode/intermediate.go", "	if _, err := m.conn.Write(size); err != nil {\n		return err\n	}\n	if _, err := m.conn.Write(msg); err != nil {\n		return err\n	}\n", "	if _, err := m.conn.Write(append(size, msg...)); err != nil {\n		return err\n	}\n"))
 mut("01N-marshal-fresh-copy", "C01", None, ("internal/encoding/tl/encoder.go", "	return buf.Bytes(), nil\n}\n\nfunc (c *Encoder) encodeValue(", "	return append([]byte(nil), buf.Bytes()...), nil\n}\n\nfunc (c *Encoder) encodeValue("))
 
+# --- fifth round ----------------------------------------------------------------------------------------
+IGE = "internal/aes_ige/ige_cipher.go"
+mut("05-encrypt-scribbles-on-input", "C05", "R05.B", (IGE, "		c.x, c.y = c.t, in[i:i+aes.BlockSize]\n		copy(out[i:], c.t)\n	}\n	return nil\n}\n\nfunc (c *Cipher) doAES256IGEdecrypt", "		c.x, c.y = c.t, in[i:i+aes.BlockSize]\n		copy(out[i:], c.t)\n		copy(in[i:], c.t)\n	}\n	return nil\n}\n\nfunc (c *Cipher) doAES256IGEdecrypt"))
+mut("09-gzip-break-before-append", "C09", "R09.Z", ("internal/mtproto/objects/types.go", "		n, _ := gz.Read(b)\n\n		decompressed = append(decompressed, b[0:n]...)\n		if n <= 0 {\n			break\n		}\n", "		n, err := gz.Read(b)\n		if err != nil {\n			break\n		}\n\n		decompressed = append(decompressed, b[0:n]...)\n"))
+mut("07-service-mode-off-on-reqpq-error", "C07", "C07/", (H, "	res, err := m.reqPQ(nonceFirst)\n	if err != nil {\n", "	res, err := m.reqPQ(nonceFirst)\n	if err != nil {\n		m.serviceModeActivated = false\n"))
+mut("04-body-longer-than-declared", "C04", "R04.G", ("internal/mtproto/messages/messages.go", "	msg.Msg = d.PopRawBytes(int(messageLen))\n\n	return msg, nil", "	msg.Msg = d.PopRawBytes(len(decrypted) - 32)\n\n	return msg, nil"))
+mut("02-flags-placeholder-one-late", "C02", "R02.X", ("internal/encoding/tl/encoder.go", "		if hasFlagsField && flagIndex == i {\n			tmpObjects = append(tmpObjects, reflect.ValueOf(0))\n		}\n", "		if hasFlagsField && flagIndex+1 == i {\n			tmpObjects = append(tmpObjects, reflect.ValueOf(0))\n		}\n"))
+mut("01-enum-any-enum-id", "C01", "R01.E", ("internal/encoding/tl/decoder.go", "				if _, isEnum := enumCrcs[crcCode]; isEnum && objectByCrc[crcCode] == e.Type() {", "				if _, isEnum := enumCrcs[crcCode]; isEnum {"))
+mut("01-takeout-wrapper-not-registered", "C01", "R01.U", ("telegram/methods_special.go", "		&InvokeWithLayerParams{},\n		&InvokeWithTakeoutParams{},\n	)", "		&InvokeWithLayerParams{},\n	)"))
+mut("13-future-salt-fields-swapped", "C13", "service-fields:FutureSalt", ("internal/mtproto/objects/types.go", "type FutureSalt struct {\n	ValidSince int32\n	ValidUntil int32\n", "type FutureSalt struct {\n	ValidUntil int32\n	ValidSince int32\n"))
+mut("20-error-path-reads-host", "C20", "errpath:", ("telegram/deeplinks/resolver.go", "		return nil, errors.Wrap(err, \"not a uri\")", "		return nil, errors.Wrap(err, \"not a uri: \"+u.Host)"))
+mut("19-zero-exponent-replaced", "C19", "only-writer:dh_exponent-int", ("internal/math/math.go", "	g_b = big.NewInt(0).Exp(big.NewInt(int64(g)), b, dh_prime)\n	g_ab", "	if b.Sign() == 0 {\n		b.SetInt64(2)\n	}\n	g_b = big.NewInt(0).Exp(big.NewInt(int64(g)), b, dh_prime)\n	g_ab"))
+mut("15-popvector-silent-nil", "C15", "R15.N", ("internal/encoding/tl/cursor_r.go", "	if int64(size) > int64(d.buf.Len()/WordLen) {\n		d.err = fmt.Errorf(\"vector of %v elements can't fit in %v bytes left\", size, d.buf.Len())\n		return nil\n	}", "	if int64(size) > int64(d.buf.Len()/WordLen) {\n		return nil\n	}"))
+mut("17-default-dcs-through-helper", "C17", "dc-table-per-client", ("utils.go", "func defaultDCList() map[int]string {\n	return map[int]string{", "func defaultDCList() map[int]string { return seedDCs }\n\nvar seedDCs = seedDCList()\n\nfunc seedDCList() map[int]string {\n	return map[int]string{"))
+mut("14-declared-obj-by-lowercase", "C14", "obj-suffix:same-predicate", ("internal/cmd/tlgen/gen/tl_gen_interfaces.go", "			if goify(_type.Name, true) == goify(i, true) {", "			if strings.ToLower(_type.Name) == strings.ToLower(i) {"), ("internal/cmd/tlgen/gen/tl_gen_interfaces.go", "import (\n	\"sort\"\n", "import (\n	\"sort\"\n	\"strings\"\n"))
+mut("12-load-lstat", "C12", "probe-follows-links", ("internal/session/file.go", "	info, err := os.Stat(l.path)", "	info, err := os.Lstat(l.path)"))
+mut("11-store-skips-same-salt", "C11", "R11.S/store:success-means-written", ("internal/session/file.go", "func (l *genericFileSessionLoader) Store(s *Session) error {\n", "func (l *genericFileSessionLoader) Store(s *Session) error {\n	if l.cached != nil && l.cached.Salt == s.Salt {\n		return nil\n	}\n"))
+mut("19N-exponent-reduced-mod-p", "C19", None, ("internal/math/math.go", "	g_b = big.NewInt(0).Exp(big.NewInt(int64(g)), b, dh_prime)\n	g_ab", "	b.Mod(b, dh_prime)\n	g_b = big.NewInt(0).Exp(big.NewInt(int64(g)), b, dh_prime)\n	g_ab"))
+mut("15N-wrapped-slice-under-clear-error", "C15", None, ("internal/encoding/tl/decoder.go", "		res := d.popVector(_typ.Elem(), true)\n		if d.err != nil {\n			return nil\n		}\n\n		return &WrappedSlice{res}\n", "		res := d.popVector(_typ.Elem(), true)\n		if d.err == nil {\n			return &WrappedSlice{res}\n		}\n\n		return nil\n"))
+mut("14N-both-deciders-equalfold", "C14", None, ("internal/cmd/tlgen/gen/tl_gen_interfaces.go", "			if goify(_type.Name, true) == goify(i, true) {", "			if strings.EqualFold(_type.Name, i) {"), ("internal/cmd/tlgen/gen/tl_gen_interfaces.go", "import (\n	\"sort\"\n", "import (\n	\"sort\"\n	\"strings\"\n"), ("internal/cmd/tlgen/gen/schema.go", "			if goify(_struct.Name, true) == goify(_struct.Interface, true) {", "			if strings.EqualFold(_struct.Name, _struct.Interface) {"))
+mut("06N-makeauthkey-extra-defer", "C06", None, (H, "	m.serviceModeActivated = true\n	nonceFirst := tl.RandomInt128()\n", "	defer func() {}()\n	m.serviceModeActivated = true\n	nonceFirst := tl.RandomInt128()\n"))
+mut("13N-service-field-renamed", "C13", None, ("internal/mtproto/objects/types.go", "type FutureSalt struct {\n	ValidSince int32\n	ValidUntil int32\n", "type FutureSalt struct {\n	ValidFrom  int32\n	ValidUntil int32\n"))
+
 json.dump(M, open('/verif/selftest/mutations.json', 'w'), indent=1, ensure_ascii=False)
 print(len(M), "mutations")
